@@ -70,6 +70,35 @@ class RaisingBool:
         return "RaisingBool()"
 
 
+class Cancelled(BaseException):
+    """Not an Exception: what asyncio.CancelledError / KeyboardInterrupt / SystemExit are."""
+
+
+class RaisingBase:
+    """Comparison and truth value raise a BaseException that is not an Exception."""
+
+    def __init__(self, v=0):
+        self.v = v
+
+    def __eq__(self, other):
+        _log(self, "__eq__")
+        raise Cancelled("eq cancelled")
+
+    def __lt__(self, other):
+        _log(self, "__lt__")
+        raise Cancelled("lt cancelled")
+
+    def __bool__(self):
+        _log(self, "__bool__")
+        raise Cancelled("bool cancelled")
+
+    def __hash__(self):
+        return 11
+
+    def __repr__(self):
+        return "RaisingBase()"
+
+
 class LenOnly:
     def __init__(self, n):
         self.n = n
@@ -186,7 +215,7 @@ class OtherErr(Exception):
     pass
 
 
-USER_CLASSES = [OnlyLt, OnlyEq, RaisingEq, RaisingBool, LenOnly, ContainsOnly, NonBoolEq, FullOrder, Plain, OneShot]
+USER_CLASSES = [OnlyLt, OnlyEq, RaisingEq, RaisingBool, RaisingBase, LenOnly, ContainsOnly, NonBoolEq, FullOrder, Plain, OneShot]
 
 nan = float("nan")
 inf = math.inf
@@ -274,7 +303,12 @@ VALUES = [
     ("notimpl", "other", lambda: NotImplemented),
 ]
 
-BY_NAME = {n: (c, f) for n, c, f in VALUES}
+# values that only the checks naming them use (not part of the sweeps over VALUES)
+EXTRA_VALUES = [
+    ("u-raisebase", "partial:RaisingBase", lambda: RaisingBase()),
+]
+
+BY_NAME = {n: (c, f) for n, c, f in VALUES + EXTRA_VALUES}
 
 
 def fresh(name):
